@@ -102,6 +102,23 @@ Definition Admissible (p : pool) (d : db) (t : tx) : Prop :=
     (forall c, In c colls -> exists n, get_node (p_g p) c = Some n /\
                  n_ctip n * t_gas t < t_tip t * n_cgas n).
 
+Lemma can_insert_not_ok : forall p d t, can_insert_transaction p d t <> inr IOk.
+Proof.
+  intros p d t. unfold can_insert_transaction.
+  destruct (t_gas t =? 0); [discriminate|].
+  destruct (amem N.eqb (t_id t) (p_txmap p)); [discriminate|].
+  destruct (match t_blob t with Some b => memN b (d_blobs d) | None => false end); [discriminate|].
+  destruct (validate_inputs (p_g p) d (p_eo p) (p_spent p) (cfg_utxo_validation (p_cfg p)) (t_ins t) None);
+    try discriminate.
+  destruct (find_collisions (p_cm p) t) as [colls|]; [|discriminate].
+  destruct (can_store (p_g p) (cfg_max_chain (p_cfg p)) t) as [[direct all]|]; [|discriminate].
+  destruct (existsb (fun c => memN c all) colls); [discriminate|].
+  destruct (check_collision_requirements (p_g p) t match all with [] => false | _ => true end colls); [discriminate|].
+  match goal with |- (if ?b then _ else _) <> _ => destruct b end; [discriminate|].
+  destruct (match all with [] => false | _ => true end); [discriminate|].
+  match goal with |- match ?x with _ => _ end <> _ => destruct x end; discriminate.
+Qed.
+
 Lemma insert_accept_facts : forall p d t p', pool_insert p d t = (p', IOk) ->
   Admissible p d t /\
   exists ci, can_insert_transaction p d t = inl ci /\ p' = do_insert p t ci.
@@ -109,7 +126,8 @@ Proof.
   intros p d t p' H. unfold pool_insert in H.
   destruct (lru_mem (KTx (t_id t)) (s_lru (p_spent p)) || memN (t_id t) (d_txs d)) eqn:E0; [inversion H|].
   apply orb_false_iff in E0. destruct E0 as [E01 E02].
-  destruct (can_insert_transaction p d t) as [ci|e] eqn:E; [|inversion H].
+  destruct (can_insert_transaction p d t) as [ci|e] eqn:E;
+    [|inversion H; subst; exfalso; exact (can_insert_not_ok _ _ _ E)].
   inversion H; subst. split; [|exists ci; split; reflexivity].
   unfold can_insert_transaction in E.
   destruct (t_gas t =? 0) eqn:Eg; [discriminate|]. apply N.eqb_neq in Eg.
@@ -183,7 +201,10 @@ Proof.
 Qed.
 
 Lemma lru_pop_length : forall k l, (length (lru_pop k l) <= length l)%nat.
-Proof. intros. unfold lru_pop. apply filter_length_le. Qed.
+Proof.
+  intros. unfold lru_pop. induction l as [|x r IH]; cbn [filter length]; [lia|].
+  destruct (negb (key_eqb x k)); cbn [length]; lia.
+Qed.
 
 (* a put does not evict while the cache is not full *)
 Lemma lru_put_keeps : forall cap k k' l, lenN l < cap -> In k l -> In k (lru_put cap k' l).
